@@ -184,6 +184,9 @@ func (ps *PathSolver) open() {
 
 // Finish pops the path scope.
 func (ps *PathSolver) Finish() {
+	if ps.s == nil {
+		return
+	}
 	if ps.opened && !ps.s.dead {
 		ps.s.send("(pop 1)")
 		ps.s.roundTrip()
@@ -194,7 +197,7 @@ func (ps *PathSolver) Finish() {
 // Check decides satisfiability of pc ∧ extra. When wantModel it also returns values of vars.
 func (ps *PathSolver) Check(pc []*Term, extra *Term, wantModel []*Term) (SatResult, map[string]uint64, string) {
 	s := ps.s
-	if s.dead {
+	if s == nil || s.dead {
 		return Unknown, nil, "solver dead"
 	}
 	ps.open()
